@@ -1,6 +1,6 @@
 (* Basic facts about the JSON-level value operations of the pub model. *)
 From Coq Require Import String List Bool Arith.
-From Verif Require Import Base.ListX Base.Json Pub.Events Pub.Value Pub.Util.
+From Verif Require Import Base.ListX Base.Json Pub.Events Pub.Calls Pub.Value Pub.Util.
 Import ListNotations.
 Open Scope string_scope.
 
@@ -60,4 +60,86 @@ Proof.
   destruct (vhas v2 "object"); [|exact T2].
   destruct (elems "object" v2); [|exact T2].
   rewrite type_name_set_elems by discriminate. exact T2.
+Qed.
+
+Lemma scompare_refl s : String.compare s s = Eq.
+Proof.
+  induction s as [|a s IH]; simpl; [reflexivity|].
+  unfold Ascii.compare. rewrite BinNat.N.compare_refl. exact IH.
+Qed.
+
+(* ---- lookups commute with canonicalisation and with streams.Serialize's context cleaning ---- *)
+Lemma assoc_insert_kv k k' v m : assoc k (insert_kv k' v m) = if String.eqb k k' then Some v else assoc k m.
+Proof.
+  induction m as [|[k0 v0] r IH]; simpl; [reflexivity|].
+  destruct (String.compare k' k0) eqn:C; simpl; try reflexivity.
+  (* Gt: k0 < k', so k0 <> k' *)
+  rewrite IH. destruct (String.eqb k k') eqn:E1; [|reflexivity].
+  apply String.eqb_eq in E1. subst k'. destruct (String.eqb k k0) eqn:E2; [|reflexivity].
+  apply String.eqb_eq in E2. subst k0. assert (Hc : String.compare k k = Eq) by apply scompare_refl. rewrite Hc in C. discriminate.
+Qed.
+
+Lemma assoc_canon_fold k m :
+  assoc k (fold_right (fun kv acc => insert_kv (fst kv) (canon (snd kv)) acc) [] m) = option_map canon (assoc k m).
+Proof.
+  induction m as [|[k0 v0] r IH]; simpl; [reflexivity|].
+  rewrite assoc_insert_kv. destruct (String.eqb k k0); [reflexivity|exact IH].
+Qed.
+
+Lemma jget_canon k j : jget k (canon j) = option_map canon (jget k j).
+Proof. destruct j; try reflexivity. unfold jget. simpl. apply assoc_canon_fold. Qed.
+
+Lemma jhas_canon k j : jhas k (canon j) = jhas k j.
+Proof. unfold jhas. rewrite jget_canon. destruct (jget k j); reflexivity. Qed.
+
+Lemma jtype_canon j : jtype (canon j) = jtype j.
+Proof. unfold jtype. rewrite jget_canon. destruct (jget "type" j) as [[]|]; reflexivity. Qed.
+
+Definition clean_val (f : nat) (v : json) : json := match v with JObj _ => clean_ctx f (jremove "@context" v) | _ => v end.
+
+Lemma assoc_map_vals {A} (g : A -> A) k (m : list (string * A)) :
+  assoc k (map (fun kv => (fst kv, g (snd kv))) m) = option_map g (assoc k m).
+Proof. induction m as [|[k0 v0] r IH]; simpl; [reflexivity|]. destruct (String.eqb k k0); [reflexivity|exact IH]. Qed.
+
+Lemma jget_clean_ctx k f m : jget k (clean_ctx (S f) (JObj m)) = option_map (clean_val f) (jget k (JObj m)).
+Proof.
+  unfold jget. simpl.
+  rewrite (map_ext _ (fun kv : string * json => (fst kv, clean_val f (snd kv)))) by (intros [k0 v0]; destruct v0; reflexivity).
+  apply (assoc_map_vals (clean_val f)).
+Qed.
+
+Lemma jhas_clean_ctx k f j : jhas k (clean_ctx f j) = jhas k j.
+Proof.
+  destruct f; [reflexivity|]. destruct j; try reflexivity. unfold jhas. rewrite jget_clean_ctx.
+  destruct (jget k (JObj m)); reflexivity.
+Qed.
+
+Lemma jtype_clean_ctx f j : jtype (clean_ctx f j) = jtype j.
+Proof.
+  destruct f; [reflexivity|]. destruct j; try reflexivity. unfold jtype. rewrite jget_clean_ctx.
+  destruct (jget "type" (JObj m)) as [[| | | | |m0]|]; try reflexivity. simpl. destruct f; reflexivity.
+Qed.
+
+Lemma jhas_jremove_other k k' j : k <> k' -> jhas k (jremove k' j) = jhas k j.
+Proof. intros H. unfold jhas. rewrite jget_jremove_other by exact H. reflexivity. Qed.
+Lemma jtype_jremove k j : k <> "type" -> jtype (jremove k j) = jtype j.
+Proof. intros H. unfold jtype. rewrite jget_jremove_other by congruence. reflexivity. Qed.
+
+(* ---- hidden recipients ---- *)
+
+Lemma vhas_jremove v k p : k <> "type" -> vhas (jremove k v) p = vhas v p.
+Proof. intros H. unfold vhas. rewrite type_name_jremove by exact H. reflexivity. Qed.
+
+Lemma hidden_on_strip v : hidden_on (let v := if vhas v "bto" then jremove "bto" v else v in if vhas v "bcc" then jremove "bcc" v else v) = false.
+Proof.
+  unfold hidden_on.
+  destruct (vhas v "bto") eqn:E1.
+  - rewrite (vhas_jremove v "bto" "bcc") by discriminate.
+    destruct (vhas v "bcc") eqn:E2.
+    + rewrite !vhas_jremove by discriminate. rewrite E1, E2. simpl.
+      rewrite jhas_jremove_other by discriminate. unfold jhas. rewrite !jget_jremove_same. reflexivity.
+    + rewrite !vhas_jremove by discriminate. rewrite E1, E2. simpl. unfold jhas. rewrite jget_jremove_same. reflexivity.
+  - destruct (vhas v "bcc") eqn:E2.
+    + rewrite !vhas_jremove by discriminate. rewrite E1, E2. simpl. unfold jhas. rewrite jget_jremove_same. reflexivity.
+    + rewrite E1, E2. reflexivity.
 Qed.
